@@ -27,7 +27,8 @@ Definition diag_eqb (a b : diag) : bool :=
   | DgNotExists, DgNotExists | DgNotStruct, DgNotStruct | DgNotInFile, DgNotInFile
   | DgAlias, DgAlias | DgNonIntConst, DgNonIntConst | DgRestNotExists, DgRestNotExists
   | DgSrcNotExists, DgSrcNotExists | DgDestNotExists, DgDestNotExists
-  | DgFileNotGo, DgFileNotGo | DgFileNotExists, DgFileNotExists => true
+  | DgFileNotGo, DgFileNotGo | DgFileNotExists, DgFileNotExists
+  | DgEnumNone, DgEnumNone | DgSameFile, DgSameFile => true
   | _, _ => false
   end.
 
@@ -108,17 +109,14 @@ Fixpoint mismatches_from (i : N) (cs : list case) : list (N * N) :=
 Definition mismatches := mismatches_from 0%N.
 
 (* classes of the cases, for the coverage counters of the evidence:
-   0 inside the theorems' guard; 1..5 the open finding classes; 8 the command
+   0 inside the theorems' guard; 2, 3 the open finding classes; 8 the command
    line is rejected by flag parsing; 9 outside the grammar *)
 Definition case_class (k : case) : N :=
   match parse_common (c_cmd k) (c_args k) with
   | POk fl _ =>
       if negb (wf_pkgb (c_pkg k)) then 9%N
-      else if k_enum_missing_silent (c_cmd k) fl (c_pkg k) then 1%N
       else if k_star_no_generate_line (c_cmd k) fl (c_pkg k) then 2%N
       else if k_star_sep_file (c_cmd k) fl (c_pkg k) then 3%N
-      else if k_local_type_listed (c_cmd k) fl (c_pkg k) then 4%N
-      else if k_lower_collision (c_cmd k) fl (c_pkg k) then 5%N
       else 0%N
   | _ => 8%N
   end.
